@@ -167,8 +167,9 @@ static int find_ancestor_in_list(char ** name_list)
         if (left == NULL || right == NULL) {
             return -1;
         }
+        // An empty command name is valid (see prctl(PR_SET_NAME)): it matches no listed name, keep walking up
         len = right - left - 1;
-        if (len <= 0 || len >= ST_COMM_SIZE_MAX) {
+        if (right < left || len >= ST_COMM_SIZE_MAX) {
             return -1;
         }
 
